@@ -45,6 +45,8 @@ enum websocket_callback_return binary_frame_received_comp(bool is_compressed, st
                                enum websocket_callback_return(*binary_frame_received)(struct websocket *s, uint8_t *msg, size_t length, bool is_last_frame));
 
 int websocket_compress(const struct websocket *s, uint8_t *dest, uint8_t *src, size_t length);
+int websocket_compress_bounded(const struct websocket *s, uint8_t *dest, size_t dest_size, uint8_t *src, size_t length);
+size_t websocket_compress_bound(size_t length);
 
 void alloc_compression(struct websocket *ws);
 void free_compression(struct websocket *ws);
